@@ -11,7 +11,7 @@ IMPL_MODULE = "props.c05_impl"
 HASHSEEDS = {"quick": [0, 1], "thorough": [0, 1, 2, 3]}
 CASE_TIMEOUT = 120
 RULE = ("sharpen: small base grammars of families F1 (one base type: 1-3 constants, 0-2 unary, 1-2 binary primitives) and "
-        "F2 (int and bool: lt/eq, not/and, ite, constants), CFG.depth_constraint with max_depth 2-4, "
+        "F2 (int and bool: lt/eq, not/and, ite - sometimes at both int and bool, two primitives with one name -, constants), CFG.depth_constraint with max_depth 2-4, "
         "min_variable_depth 0-1, optional forbidden table, request with 0-2 variables; 1-3 constraint strings and an "
         "optional sketch drawn from a grammar of the documented syntax (name sets a,b / ^a,b / _ / {a,b}, argument patterns "
         "nested <= 2 with pairwise different heads, counting rules #(..)<=n / #[..]>=n with n in 0..3 in both spellings, "
@@ -27,7 +27,8 @@ RULE = ("sharpen: small base grammars of families F1 (one base type: 1-3 constan
         "and strings of the same grammar plus malformed ones; observable: the token tree (name lists as sets) or the "
         "exception.  Non-trivial = the sharpened language is neither empty nor the base language.")
 ASSUMPTIONS = ["ASCII constraint strings, single spaces between words",
-               "primitive names are distinct, free of the syntax characters and do not start with 'var'",
+               "primitive names are free of the syntax characters and do not start with 'var'; two primitives share a name only "
+               "as type instances of one polymorphic primitive (ite at int and at bool), and a written name then denotes both",
                "nested patterns do not repeat the head of an enclosing pattern (the property's exception)",
                "the base grammar has at least one program (CFG.depth_constraint raises otherwise: C01 finding)",
                "name lists inside tokens are compared as sets"]
@@ -67,6 +68,10 @@ def gen_base(rng, family):
             prims.append([10, S.ARROW(B, B)])
         if rng.random() < 0.6:
             prims.append([12, S.ARROW(B, I, I, I)])
+            if rng.random() < 0.5:
+                # second type instance of the same name (a polymorphic primitive
+                # instantiated at int and at bool): a written name denotes both
+                prims.append([12, S.ARROW(B, B, B, B)])
         if rng.random() < 0.7:
             prims.append([rng.choice([0, 1]), S.ARROW(I, I, I)])
         if rng.random() < 0.3:
@@ -308,8 +313,8 @@ def gen_sketch(rng, voc):
 
 
 def voc_of(dsl):
-    names = [S.prim_name(n) for n, _ in dsl["prims"]]
-    funs = [(S.prim_name(n), len(D.arrow_parts(t)[0])) for n, t in dsl["prims"] if t[0] == 1]
+    names = list(dict.fromkeys(S.prim_name(n) for n, _ in dsl["prims"]))
+    funs = list(dict.fromkeys((S.prim_name(n), len(D.arrow_parts(t)[0])) for n, t in dsl["prims"] if t[0] == 1))
     rargs, _ = D.arrow_parts(dsl["request"])
     return Voc(names, funs, list(range(len(rargs))))
 
